@@ -223,10 +223,13 @@ static int cif_map_set_item(cif_map_t *map, const UChar *key, cif_value_tp *valu
                             item->key_orig = key_copy;
                             HASH_ADD_KEYPTR(hh, map->head, item->key, key_bytes, item);
                             return CIF_OK;
+
+                            /* referenced by the HASH_ADD_KEYPTR macro: */
+                            FAILURE_HANDLER(soft):
+                            CIF_HASH_ADD_UNDO(hh, map->head, item);
+                            cif_value_clean(new_value);
                         }
 
-                        /* referenced by the HASH_ADD_KEYPTR macro: */
-                        FAILURE_HANDLER(soft):
                         free(key_copy);
                     }
 
